@@ -61,6 +61,9 @@ class UserAddNode(ActionGroup):
         """
         super().__init__(tracks, actions=[])
         self.tracks: SolutionTracks  # Narrow type from base class
+        # the track and lineage ids determined below belong to this node only: do not
+        # write them into the caller's dict (a re-used dict would carry them to the next node)
+        attributes = dict(attributes)
 
         # Get keys from tracks features
         time_key = tracks.features.time_key
